@@ -8,6 +8,10 @@
 // stamps relative to the launch time: Import (node.processBlock returned) and Pack (an own block of the node appeared
 // among its heads).  Every own block is also validated by the omniscient stack's consensus.
 //
+// The node's best block is read from the node itself right after every event (fork choice is the BFT engine's: quality
+// first, then score - a block with a higher score is NOT necessarily adopted).  Stamps are conservative: an Import stamp is
+// taken after processBlock returned (true time is earlier), a Pack carries `lo`, the end of the previous look (true time
+// is later).  `stall` (End event) is the worst delay the harness's own timer suffered.
 // Oracles that do not depend on timing precision decide alone (a cold validator rejects an own block; two own blocks for
 // one (parent, slot); an own block more than T/2 before its slot).  The stale-parent and lateness rules are judged with
 // generous margins (see Trace_PackerLoop.tla) because the machine may be busy.
@@ -42,6 +46,7 @@ type plRun struct {
 	known  map[thor.Bytes32]bool // blocks the harness has seen (own blocks of the node, minted ones)
 	viol   []violation
 	own    int
+	stall  int64 // worst observed delay (ms) of the harness's own 20 ms look: a measure of how busy the machine was
 }
 
 func (r *plRun) ms() int64 { return time.Now().UnixMilli() - int64(r.launch)*1000 }
@@ -78,8 +83,14 @@ func (r *plRun) run(dur time.Duration) {
 	r.node.Comm.MarkSynced()
 	r.evs = append(r.evs, trace.Ev{"e": "Synced", "at": r.ms()})
 	end := time.Now().Add(dur)
+	prev := r.ms() // end of the previous look: an own block first seen now was packed after that moment
 	for time.Now().Before(end) {
+		lo := prev
+		before := time.Now()
 		time.Sleep(20 * time.Millisecond)
+		if over := time.Since(before).Milliseconds() - 20; over > r.stall {
+			r.stall = over // how late this process was woken: the node's own 1 s timer is no better off
+		}
 		// 1. own blocks of the node: new heads signed by it
 		heads, err := r.node.Repo.ScanHeads(0)
 		must(err)
@@ -92,7 +103,8 @@ func (r *plRun) run(dur time.Duration) {
 				}
 				r.known[id] = true
 				ev := r.blockFacts(blk)
-				ev["e"], ev["at"] = "Pack", r.ms()
+				ev["e"], ev["at"], ev["lo"] = "Pack", r.ms(), lo
+				ev["best"] = r.ids.Name(r.node.Repo.BestBlockSummary().Header.ID().Bytes())
 				r.evs = append(r.evs, ev)
 				r.own++
 				if err := r.net.GodLearn(blk); err != nil {
@@ -139,6 +151,7 @@ func (r *plRun) run(dur time.Duration) {
 			case "ok":
 				ev := r.blockFacts(d.b)
 				ev["e"], ev["at"] = "Import", r.ms()
+				ev["best"] = r.ids.Name(r.node.Repo.BestBlockSummary().Header.ID().Bytes())
 				r.evs = append(r.evs, ev)
 			case "known":
 			case "parent-missing", "unprocessable", "future":
@@ -148,7 +161,12 @@ func (r *plRun) run(dur time.Duration) {
 			}
 		}
 		queue = rest
+		if it := time.Since(before).Milliseconds(); it-20 > r.stall {
+			r.stall = it - 20 // a long iteration (imports, minting under load) delays the next look just as much
+		}
+		prev = r.ms()
 	}
+	r.evs = append(r.evs, trace.Ev{"e": "End", "stall": r.stall})
 }
 
 // packerLoopMode runs `n` networks concurrently (validator k%3 is the real node in network k).
